@@ -99,11 +99,61 @@ pub fn strings(sink: &mut Sink, cfg: &str, r: &mut Rng, thorough: bool) {
     }
 }
 
+#[derive(serde::Deserialize)]
+#[allow(dead_code)]
+enum Nest { A(Box<Nest>), L(Vec<Nest>), S { x: Box<Nest> }, N }
+
+/// C14: typed targets — every mix of arrays and enum wrappers around depth 126..129
+pub fn typed_depth(sink: &mut Sink, cfg: &str, r: &mut Rng) {
+    for d in [1usize, 2, 50, 126, 127, 128, 129, 140] {
+        for mix in 0..6 {
+            let mut open = String::new(); let mut close = String::new();
+            for i in 0..d {
+                let k = match mix { 0 => 0, 1 => 1, 2 => 2, 3 => i % 3, 4 => if i + 1 == d { 1 } else { 0 }, _ => r.below(3) };
+                match k { 0 => { open.push_str("{\"L\":["); close.insert_str(0, "]}"); }
+                          1 => { open.push_str("{\"A\":"); close.insert(0, '}'); }
+                          _ => { open.push_str("{\"S\":{\"x\":"); close.insert_str(0, "}}"); } }
+            }
+            // containers opened: `[` and `{"A":` count one level, `{"S":{"x":` counts two
+            let levels: usize = { let mut n = 0; let b = open.as_bytes(); let mut i = 0; while i < b.len() { if b[i] == b'[' || b[i] == b'{' { n += 1; } i += 1; } n };
+            let doc = format!("{}\"N\"{}", open, close);
+            // a Vec<Nest> element list needs the enum inside: wrap scalars accordingly
+            let o = std::panic::catch_unwind(|| match serde_json::from_str::<Nest>(&doc) { Ok(_) => "ok".to_string(), Err(e) => format!("err:{}", hex(e.to_string().split(" at line").next().unwrap_or("").as_bytes())) }).unwrap_or("PANIC".into());
+            sink.case("tdepth", &[cfg, &levels.to_string(), &mix.to_string()], &o, &format!("tdepth:{}", if levels > 127 { "deep" } else { "ok" }), true);
+        }
+    }
+}
+
+/// C14 (unbounded_depth): with the limit disabled deeper documents parse — directly and through a stream
+#[cfg(feature = "ud")]
+pub fn unbounded(sink: &mut Sink, cfg: &str) {
+    use serde::Deserialize;
+    for d in [127usize, 128, 129, 200, 1000] {
+        let doc = format!("{}{}", "[".repeat(d), "]".repeat(d));
+        let run = |mode: &str| -> String {
+            let doc = doc.clone(); let mode = mode.to_string();
+            std::thread::Builder::new().stack_size(256 << 20).spawn(move || {
+                let mut de = serde_json::Deserializer::from_str(&doc);
+                if mode != "limited" { de.disable_recursion_limit(); }
+                let r = if mode == "stream" { de.into_iter::<serde_json::Value>().next().unwrap_or(Ok(serde_json::Value::Null)).map(|v| { std::mem::forget(v); }) }
+                        else { serde_json::Value::deserialize(&mut de).map(|v| { std::mem::forget(v); }) };
+                match r { Ok(_) => "ok".to_string(), Err(e) => format!("err:{}", cat_name(&e)) }
+            }).unwrap().join().unwrap_or("PANIC".into())
+        };
+        for mode in ["limited", "direct", "stream"] {
+            sink.case("udepth", &[cfg, mode, &d.to_string()], &run(mode), &format!("udepth:{}", mode), true);
+        }
+    }
+}
+
 pub fn run(sink: &mut Sink, prop: &str, thorough: bool, seed: u64) {
     let mut r = Rng::new(seed);
     let cfg = cfg_tag();
     if prop == "C14" {
         big(sink, &cfg);
+        typed_depth(sink, &cfg, &mut r);
+        #[cfg(feature = "ud")]
+        unbounded(sink, &cfg);
         // random bytes
         for _ in 0..(if thorough { 200000 } else { 20000 }) {
             let n = r.below(24);
